@@ -21,6 +21,13 @@ def queries(tier):
     for q in _cross.pick(tier, pred2, 10 if tier == "quick" else 100000, bus_excl=True):
         if q.name not in names:
             qs.append(q)
+    # nng_ctx_close with operations pending on the context (REP: a reply queued behind a busy connection and / or the next receive)
+    from props import C04
+    names = set(q.name for q in qs)
+    for q in C04.queries(tier):
+        if q.name.startswith("repctx-") and q.defs.get("SKEL", "").endswith(" X") and q.name not in names:
+            q.group = "~" + q.group + "#ctxclose"
+            qs.append(q)
     qs += handle_queries(tier)
     qs += ep_handle_queries(tier)
     qs.append(Query("refcnt-any-count", "c10/refcnt.c", env=["env_alloc.c", "env_misc.c", "env_sync.c", "env_libc.c"], defs={}, unwind=8, timeout=120, group="c10/refcnt.c",
